@@ -1,9 +1,11 @@
 import DnsVerif.Lemmas.EncName
+import DnsVerif.Lemmas.EncSpecRR
 
-/-! # C18 — names inside RDATA of post-RFC-1035 types are never emitted compressed (part 1)
+/-! # C18 — names inside RDATA of post-RFC-1035 types are never emitted compressed
 
-Part 1: which fields of the record table may be compressed, and what the literal writer emits. Part 2
-(record level `rdata_no_pointer`, from Lemmas/EncSpec*.lean) is appended when complete. The SVCB/HTTPS
+Part 1: which fields of the record table may be compressed, and what the literal writer emits. Part 2:
+record level — for RP, AFSDB, RT, PX, SRV, KX, DNAME, LP, from ANY encoder state satisfying the table
+invariant (any history), the RDATA holds every name literally (exact octets `Name.wire n`, zero hops). The SVCB/HTTPS
 target IS compressed by the code (known finding K1, pinned by the crate's own unit tests). -/
 
 namespace C18
@@ -38,5 +40,31 @@ theorem newtype_names_uncompressed :
   have := compress_flags_rfc1035 ty info h f hf hc
   simp at hty this
   omega
+
+/-! ## Record level -/
+
+/-- for a well-formed record whose table row has no compressible name field, the RDATA written from any
+encoder state holds exactly the given field values with every name stored literally -/
+theorem rdata_no_pointer {S : Nat → Prop} {e e' : Enc} {rr : RR} {info : RRInfo} {vs : List FVal}
+    (hinv : EInv S e) (hwf : WfRR rr) (hk : rrKind rr.ty = some (.regular info))
+    (hnc : ∀ f ∈ info.flds, f.2 ≠ .name true) (hrd : rr.rd = .fields vs) (h : encRR e rr = .ok e') :
+    ∀ buf', Agree (ext S e.out.length e'.out.length) e'.out buf' →
+      ∃ owner' e1 rdlen, owner'.lower = rr.name.lower ∧ NameRefAt buf' true e.out.length owner' e1 ∧
+        e'.out.length = e1 + 10 + rdlen ∧ BytesAt buf' (e1 + 8) (beBytes 2 rdlen) ∧
+        EncSpec.LitFieldsAt buf' (e1 + 10 + rdlen) (e1 + 10) (info.flds.map (·.2)) vs :=
+  EncSpec.rdata_no_pointer hinv hwf hk hnc hrd h
+
+/-- exactly RP, AFSDB, RT, PX, SRV, KX, DNAME, LP have name fields and none compressible -/
+theorem literal_name_types {ty : Nat} {info : RRInfo} (hk : rrKind ty = some (.regular info)) :
+    ty ∈ [17, 18, 21, 26, 33, 36, 39, 107] ↔
+      ((∃ f ∈ info.flds, f.2 = .name false) ∧ ∀ f ∈ info.flds, f.2 ≠ .name true) := by
+  have := EncSpec.literalNameTypes_spec hk
+  simpa [EncSpec.literalNameTypes] using this
+
+/-- known finding K1 (recorded; the crate's own unit tests pin these bytes): the SVCB target of
+`a. SVCB 1 a.` is written as a pointer `c0 00` to the owner name -/
+theorem K1_svcb_target_compressed :
+    encodeRR EncSpec.k1Record = .ok [1, 97, 0, 0, 64, 0, 1, 0, 0, 0, 0, 0, 4, 0, 1, 0xC0, 0x00] :=
+  EncSpec.svcb_target_compressed_witness
 
 end C18
